@@ -1,5 +1,8 @@
 import ExprModel.Proofs.RefineTop
 import ExprModel.Proofs.RefineLoopAll
+import ExprModel.Proofs.RefineFloats
+import ExprModel.Api.Pipeline
+import ExprModel.Proofs.RefineSimAll
 /-
 C01: a concrete instance of the hypotheses of the refinement theorems —
 `all(1..3, {# > 0 and I == 1})`: a loop builtin over a range, a closure with the pointer `#`, a
@@ -98,5 +101,59 @@ theorem exA_good : Good (fun _ => False) exTreeA :=
 
 theorem exA_floats : FloatsIn (fun _ => False) exTreeA := by
   refine ⟨⟨trivial, ?_⟩, trivial, trivial, ⟨⟨trivial, ?_, trivial⟩, ?_⟩⟩ <;> (intro h; exact absurd h (by decide))
+
+/-! a typed instance: environment `struct { I int; B bool }`, optimizer on, `AsBool`; the parse tree of
+`I in 1..3 and not B` — accepted by the checker, rewritten by the optimizer (`in_range`), compiled -/
+
+def exT : Api.TypedCfg :=
+  { check := { types := some [("I", { ty := some (.num .int) }), ("B", { ty := some .bool })], strict := true, expect := .bool },
+    mapEnv := false }
+
+def mkAt (l c : Nat) : Meta := { loc := ⟨l, c⟩ }
+
+def exParsed : Node :=
+  .binary (mkAt 1 10) "and"
+    (.binary (mkAt 1 2) "in" (.ident (mkAt 1 0) "I" false) (.binary (mkAt 1 6) ".." (.int (mkAt 1 5) 1) (.int (mkAt 1 8) 3)))
+    (.unary (mkAt 1 14) "not" (.ident (mkAt 1 18) "B" false))
+
+def exTyped (w : World) : Compiled × Node × Node :=
+  match Api.middle exT w exParsed with
+  | .ok cp ch fin => (cp, ch, fin)
+  | _ => default
+
+def w0 : World := { call := fun _ _ => .error .call, regexMatch := fun _ _ => none, pow := fun a _ => a }
+
+set_option maxRecDepth 20000 in
+theorem exTyped_ok : Api.middle exT w0 exParsed = .ok (exTyped w0).1 (exTyped w0).2.1 (exTyped w0).2.2 := by
+  unfold exTyped
+  rfl
+
+set_option maxRecDepth 20000 in
+theorem exTyped_fits : FitsU16 (exTyped w0).1.code := by decide
+
+set_option maxRecDepth 20000 in
+theorem exTyped_floats : floatsOK (exTyped w0).2.2 = true := by decide
+
+/-- the tree handed to the compiler: `I >= 1 and I <= 3 and not B`, annotated -/
+def exFinal : Node :=
+  .binary ⟨⟨1, 10⟩, .bool⟩ "and"
+    (.binary ⟨⟨1, 2⟩, .bool⟩ "and"
+      (.binary {} ">=" (.ident ⟨⟨1, 0⟩, .num .int⟩ "I" false) (.int ⟨⟨1, 5⟩, .num .int⟩ 1))
+      (.binary {} "<=" (.ident ⟨⟨1, 0⟩, .num .int⟩ "I" false) (.int ⟨⟨1, 8⟩, .num .int⟩ 3)))
+    (.unary ⟨⟨1, 14⟩, .bool⟩ "not" (.ident ⟨⟨1, 18⟩, .bool⟩ "B" false))
+
+set_option maxRecDepth 20000 in
+theorem exTyped_final : (exTyped w0).2.2 = exFinal := by rfl
+
+theorem exFinal_good (L : Node → Prop) : Good L exFinal :=
+  ⟨⟨⟨trivial, trivial⟩, ⟨trivial, trivial⟩⟩, trivial⟩
+
+set_option maxRecDepth 20000 in
+/-- the optimizer did rewrite: the compiled tree is not the checked one -/
+theorem exTyped_rewritten : (exTyped w0).2.2.kindName = "BinaryNode" ∧
+    (match (exTyped w0).2.2 with | .binary _ "and" (.binary _ "and" _ _) _ => True | _ => False) := by
+  constructor
+  · rfl
+  · trivial
 
 end ExprModel.C01
